@@ -82,7 +82,38 @@ Definition quote_byte (b : N) : str :=
   else if b =? 11 then [92; 118]
   else if (b <? 32) || (b =? 127) then [92; 120; hex_digit (b / 16); hex_digit (b mod 16)]
   else [b].
-Definition go_quote (s : str) : str := 34 :: flat_map quote_byte s ++ [34].
+Definition hex_esc (b : N) : str := [92; 120; hex_digit (b / 16); hex_digit (b mod 16)].
+
+(* bytes >= 0x80: a valid UTF-8 sequence is kept (the generator only uses
+   printable runes), a byte that does not start one is escaped as \xNN *)
+Fixpoint quote_bytes (s : str) (skip : nat) : str :=
+  match s with
+  | [] => []
+  | b :: r =>
+    match skip with
+    | S k => b :: quote_bytes r k      (* continuation byte of a sequence already accepted *)
+    | O =>
+      if b <? 128 then quote_byte b ++ quote_bytes r 0
+      else
+        match r with
+        | c1 :: r1 =>
+          if valid2 b c1 then b :: quote_bytes r 1
+          else match r1 with
+               | c2 :: r2 =>
+                 if valid3 b c1 c2 then b :: quote_bytes r 2
+                 else match r2 with
+                      | c3 :: _ => if valid4 b c1 c2 c3 then b :: quote_bytes r 3
+                                   else hex_esc b ++ quote_bytes r 0
+                      | [] => hex_esc b ++ quote_bytes r 0
+                      end
+               | [] => hex_esc b ++ quote_bytes r 0
+               end
+        | [] => hex_esc b
+        end
+    end
+  end.
+
+Definition go_quote (s : str) : str := 34 :: quote_bytes s 0 ++ [34].
 
 (* ---------- engine state ---------- *)
 Record fentry := mkentry {
@@ -210,6 +241,7 @@ Record nsem := mknsem {
   ns_text : str;                         (* Error() *)
   ns_tmarks : list tmark;                (* errbase.GetTypeMark of the chain from this node *)
   ns_sent : bool;                        (* markers.IsAny(e, sentinels of specialCaseFormat) *)
+  ns_safemsg : option str;               (* SafeMessage() when the type is a redact.SafeMessager *)
   (* formatRecursive(err, isOutermost, withDetail, withDepth, depth) *)
   ns_fmt : bool -> bool -> bool -> nat -> fstate -> fstate * nat }.
 
@@ -383,8 +415,12 @@ Definition final_short (ns : nsem) (red plus : bool) : str :=
 
 (* the redactable bytes a nested error contributes to a surrounding redact
    printer: finishDisplay does sp.Print(redact.RedactableBytes(finalBuf)) *)
-Definition nested_v (ns : nsem) : piece := PRaw (final_short ns true false).
-Definition nested_plus_v (ns : nsem) : piece := PRaw (final_verbose ns true).
+(* redact's handleMethods tests SafeMessager before error: such an argument
+   prints its SafeMessage() as a safe string whatever the verb *)
+Definition nested_v (ns : nsem) : piece :=
+  match ns_safemsg ns with Some m => PSafe m | None => PRaw (final_short ns true false) end.
+Definition nested_plus_v (ns : nsem) : piece :=
+  match ns_safemsg ns with Some m => PSafe m | None => PRaw (final_verbose ns true) end.
 
 (* ---------- per-type parts ---------- *)
 Definition body_safe (st : fstate) (next_nil : bool) : body_res := mkbody st true next_nil false.
@@ -649,7 +685,7 @@ Fixpoint sem (e : err) : nsem :=
         else let '(st1, el) := format_simple st text None in mkbody st1 false el false
       | _ => default_body e text sent true false None st
       end in
-    mknsem text tms sent (format_node ty None [] (leaf_stack k) body)
+    mknsem text tms sent (match k with LUser ULSafeMsg m _ _ => Some m | _ => None end) (format_node ty None [] (leaf_stack k) body)
   | Wrap i w c =>
     let sc := sem c in
     let text := wrap_text w sc (lib_format c) in
@@ -665,7 +701,7 @@ Fixpoint sem (e : err) : nsem :=
         | _ => default_body e text sent false false (Some (ns_text sc)) st
         end
       end in
-    mknsem text tms sent (format_node ty (Some sc) [] (wrap_stack w) body)
+    mknsem text tms sent None (format_node ty (Some sc) [] (wrap_stack w) body)
   | Second i c s =>
     let sc := sem c in let ss := sem s in
     let text := ns_text sc in
@@ -674,7 +710,7 @@ Fixpoint sem (e : err) : nsem :=
     let body := fun (_ : bool) (st : fstate) =>
       body_safe (if_detail st (fun s' =>
         sp_print s' [PLit (lit "secondary error attachment" ++ [nl]); nested_plus_v ss])) false in
-    mknsem text tms sent (format_node ty (Some sc) [] None body)
+    mknsem text tms sent None (format_node ty (Some sc) [] None body)
   | Barrier i smsg m =>
     let sm := sem m in
     let text := strip_markers smsg in
@@ -684,7 +720,7 @@ Fixpoint sem (e : err) : nsem :=
       let st1 := sp_print st [PRaw smsg] in
       body_safe (if_detail st1 (fun s' =>
         sp_print s' [PLit (lit "-- cause hidden behind barrier" ++ [nl]); nested_plus_v sm])) true in
-    mknsem text tms sent (format_node ty None [] None body)
+    mknsem text tms sent None (format_node ty None [] None body)
   | Multi i k cs =>
     let scs := List.map sem cs in
     let tms := [own_tmark e] in
@@ -703,19 +739,19 @@ Fixpoint sem (e : err) : nsem :=
       let short := let '(st, _) := fmtf true false false 0%nat (st_init true false) in
                    single_line true (fs_entries st) [] in
       let text := strip_markers (sprint_pieces [PRaw short]) in
-      mknsem text tms (mark_is_sentinel text tms || kids_sent) fmtf
+      mknsem text tms (mark_is_sentinel text tms || kids_sent) None fmtf
     | MStdJoin =>
       let text := join [nl] (List.map ns_text scs) in
       let sent := mark_is_sentinel text tms || kids_sent in
       let body := fun (_ : bool) (st : fstate) =>
         default_body e text sent (match cs with [] => true | _ => false end) true None st in
-      mknsem text tms sent (format_node ty None scs None body)
+      mknsem text tms sent None (format_node ty None scs None body)
     | MFmtWraps msg =>
       let text := msg in
       let sent := mark_is_sentinel text tms || kids_sent in
       let body := fun (_ : bool) (st : fstate) =>
         default_body e text sent (match cs with [] => true | _ => false end) true None st in
-      mknsem text tms sent (format_node ty None scs None body)
+      mknsem text tms sent None (format_node ty None scs None body)
     end
   | OLeaf i msg d cs =>
     let scs := List.map sem cs in
@@ -725,7 +761,7 @@ Fixpoint sem (e : err) : nsem :=
     let body := fun (_ : bool) (st : fstate) =>
       let st1 := sp_print st [PUnsafe msg] in
       body_safe (if_detail st1 (opaque_details "(opaque error leaf)" d)) true in
-    mknsem text tms sent (format_node ty None scs None body)
+    mknsem text tms sent None (format_node ty None scs None body)
   | OWrap i pfx d mt c =>
     let sc := sem c in
     let cause_s := if lib_format c then final_short sc false false else ns_text sc in
@@ -736,7 +772,7 @@ Fixpoint sem (e : err) : nsem :=
     let body := fun (_ : bool) (st : fstate) =>
       let st1 := match pfx with [] => st | _ => sp_print st [PUnsafe pfx] end in
       body_safe (if_detail st1 (opaque_details "(opaque error wrapper)" d)) (is_full_msg mt) in
-    mknsem text tms sent (format_node ty (Some sc) [] None body)
+    mknsem text tms sent None (format_node ty (Some sc) [] None body)
   end.
 
 Definition error_text (e : err) : str := ns_text (sem e).
